@@ -253,7 +253,10 @@ Definition discharge_table : list (string * discharge) := [
   ("scope/varsscope.go|(*varsScope).setValue|index|listContainer[index]|listContainer, ok := container.([]interface{}); ok && index, err = strconv.Atoi(fieldIndex); err == nil && index >= 0 && index < len(listContainer)", ByLemma _ L_setraw);
   ("scope/varsscope.go|(*varsScope).setValue|mapkey|mapContainer[mapFieldKey(mapContainer, fieldIndex)]|mapContainer, ok := container.(map[interface{}]interface{}); ok", Invariant "mapFieldKey returns float64(index) or the string field itself: both hashable");
   ("scope/varsscope.go|(*varsScope).setValue|slice|cFields[1:]|cFields := strings.Split(varName, "".""); len(cFields) > 1 && container, ok, _ := s.getValue(cFields[0]); ok && len(cFields) > 2", Invariant "strings.Split returns at least one element; fields is a non-empty suffix of cFields (recursion only with len(fields) > 1 resp. > 2)");
-  ("scope/varsscope.go|(*varsScope).setValue|slice|cFields[:len(cFields)-1]|cFields := strings.Split(varName, "".""); len(cFields) > 1 && container, ok, _ := s.getValue(cFields[0]); ok", Invariant "strings.Split returns at least one element; fields is a non-empty suffix of cFields (recursion only with len(fields) > 1 resp. > 2)")
+  ("scope/varsscope.go|(*varsScope).setValue|slice|cFields[:len(cFields)-1]|cFields := strings.Split(varName, "".""); len(cFields) > 1 && container, ok, _ := s.getValue(cFields[0]); ok", Invariant "strings.Split returns at least one element; fields is a non-empty suffix of cFields (recursion only with len(fields) > 1 resp. > 2)");
+  (* docFunc.Run after fixes/C06-doc-index-argument.patch *)
+  ("interpreter/func_provider.go|(*docFunc).Run|index|c.Children[0]|len(c.Children) > 0 && c.Children[0].Name == parser.NodeIDENTIFIER", Guarded "the length test in the key dominates the access");
+  ("interpreter/func_provider.go|(*docFunc).Run|index|c.Children[0]|len(c.Children) > 0 && c.Children[0].Name == parser.NodeIDENTIFIER && c.Children[0].Token != nil", Guarded "the length test in the key dominates the access")
 ].
 
 Definition site_covered (s : psite) : bool :=
